@@ -248,3 +248,397 @@ Qed.
 
 Lemma canon_group_pkgs_order_invariant : OrderInvariant canon_group_pkgs.
 Proof. intros l l' P. apply ssort_perm_invariant. exact P. Qed.
+
+(* ====================================================================== *)
+(* build date                                                               *)
+(* ====================================================================== *)
+Lemma fold_after_spec times : forall sde,
+  IsLatest (fold_left (fun b t => if after t b then t else b) times sde) (sde :: times).
+Proof.
+  unfold IsLatest, after. induction times as [|t ts IH]; intro sde; simpl.
+  - split; [left; reflexivity|]. constructor; [lia|constructor].
+  - destruct (IH (if (sde <? t)%Z then t else sde)) as [I F].
+    inversion F as [|? ? F1 F2]; subst. split.
+    + destruct I as [I|I]; [|right; right; exact I].
+      rewrite <- I. destruct (sde <? t)%Z; [right; left; reflexivity | left; reflexivity].
+    + destruct (sde <? t)%Z eqn:E; [apply Z.ltb_lt in E | apply Z.ltb_ge in E];
+        (constructor; [lia|]); (constructor; [lia|exact F2]).
+Qed.
+
+Lemma IsLatest_unique m m' l l' : Permutation l l' -> IsLatest m l -> IsLatest m' l' -> m = m'.
+Proof.
+  intros P [I F] [I' F']. rewrite Forall_forall in F, F'.
+  assert (m' <= m)%Z by (apply F; perm_in P; exact I').
+  assert (m <= m')%Z by (apply F'; perm_in P; exact I). lia.
+Qed.
+
+Lemma pkg_bde_latest sde times : IsLatest (pkg_bde sde times) (sde :: times).
+Proof. apply fold_after_spec. Qed.
+
+Lemma pkg_bde_perm sde times times' : Permutation times times' -> pkg_bde sde times = pkg_bde sde times'.
+Proof.
+  intro P. eapply IsLatest_unique; [apply perm_skip; exact P | apply pkg_bde_latest | apply pkg_bde_latest].
+Qed.
+
+Lemma build_date_epoch_spec flag env times :
+  (forall v, env = Some v -> build_date_epoch flag env times = resolve_sde flag env) /\
+  (env = None -> IsLatest (build_date_epoch flag env times) (flag :: times)).
+Proof.
+  split.
+  - intros v ->. reflexivity.
+  - intros ->. apply pkg_bde_latest.
+Qed.
+
+Lemma build_date_epoch_perm flag env times times' :
+  Permutation times times' -> build_date_epoch flag env times = build_date_epoch flag env times'.
+Proof. intro P. unfold build_date_epoch. destruct env; [reflexivity|]. apply pkg_bde_perm. exact P. Qed.
+
+Lemma multi_arch_bde_latest sde completed : IsLatest (multi_arch_bde sde completed) (sde :: completed).
+Proof. apply fold_after_spec. Qed.
+
+Lemma multi_arch_bde_perm sde c c' : Permutation c c' -> multi_arch_bde sde c = multi_arch_bde sde c'.
+Proof.
+  intro P. eapply IsLatest_unique; [apply perm_skip; exact P | apply multi_arch_bde_latest | apply multi_arch_bde_latest].
+Qed.
+
+(* with SOURCE_DATE_EPOCH set every architecture reports it, so the index date is it *)
+Lemma multi_arch_bde_fixed sde c : Forall (fun b => b = sde) c -> multi_arch_bde sde c = sde.
+Proof.
+  intro F. destruct (multi_arch_bde_latest sde c) as [I _]. rewrite Forall_forall in F.
+  destruct I as [I|I]; [symmetry; exact I | apply F; exact I].
+Qed.
+
+(* ====================================================================== *)
+(* keyring writes                                                           *)
+(* ====================================================================== *)
+Lemma lookup_upsert k k' v m :
+  lookup k (upsert k' v m) = if String.eqb k k' then Some v else lookup k m.
+Proof.
+  induction m as [|[k0 v0] m IH]; simpl.
+  - reflexivity.
+  - destruct (String.eqb k' k0) eqn:E0; simpl.
+    + apply String.eqb_eq in E0. subst k0. destruct (String.eqb k k'); reflexivity.
+    + destruct (String.eqb k k0) eqn:E1.
+      * apply String.eqb_eq in E1. subst k0.
+        destruct (String.eqb k k') eqn:E2; [|reflexivity].
+        apply String.eqb_eq in E2. subst. rewrite String.eqb_refl in E0. discriminate.
+      * exact IH.
+Qed.
+
+Lemma upsert_keys_in k v m x : In x (List.map fst (upsert k v m)) <-> x = k \/ In x (List.map fst m).
+Proof.
+  induction m as [|[k0 v0] m IH]; simpl.
+  - intuition.
+  - destruct (String.eqb k k0) eqn:E; simpl.
+    + apply String.eqb_eq in E. subst. intuition.
+    + rewrite IH. intuition.
+Qed.
+
+Lemma upsert_keys_nodup k v m : NoDup (List.map fst m) -> NoDup (List.map fst (upsert k v m)).
+Proof.
+  induction m as [|[k0 v0] m IH]; simpl; intro N.
+  - constructor; [intros []|constructor].
+  - inversion N as [|? ? N1 N2]; subst. destruct (String.eqb k k0) eqn:E; simpl.
+    + apply String.eqb_eq in E. subst. constructor; assumption.
+    + constructor; [|apply IH; exact N2]. rewrite upsert_keys_in. intros [->|H]; [|contradiction].
+      rewrite String.eqb_refl in E. discriminate.
+Qed.
+
+Definition kw_step (m : list (string * string)) (kv : string * string) := upsert (fst kv) (snd kv) m.
+
+Lemma writes_keys_nodup s : forall m, NoDup (List.map fst m) -> NoDup (List.map fst (fold_left kw_step s m)).
+Proof. induction s as [|kv s IH]; intros m N; simpl; [exact N|]. apply IH. apply upsert_keys_nodup. exact N. Qed.
+
+Lemma writes_keys_in s : forall m x,
+  In x (List.map fst (fold_left kw_step s m)) <-> In x (List.map fst s) \/ In x (List.map fst m).
+Proof.
+  induction s as [|kv s IH]; intros m x; simpl; [tauto|].
+  rewrite IH. unfold kw_step at 1. rewrite upsert_keys_in. intuition.
+Qed.
+
+(* with distinct basenames, the directory holds exactly what was written *)
+Lemma writes_lookup s : NoDup (List.map fst s) -> forall m k,
+  lookup k (fold_left kw_step s m) =
+  match lookup k s with Some v => Some v | None => lookup k m end.
+Proof.
+  induction s as [|[k0 v0] s IH]; intros N m k; simpl; [reflexivity|].
+  inversion N as [|? ? N1 N2]; subst. rewrite (IH N2). unfold kw_step at 1. simpl. rewrite lookup_upsert.
+  destruct (String.eqb k k0) eqn:E; [|reflexivity].
+  apply String.eqb_eq in E. subst k0.
+  destruct (lookup k s) eqn:L; [|reflexivity]. exfalso. apply N1.
+  clear - L. induction s as [|[k1 v1] s IH]; simpl in *; [discriminate|].
+  destruct (String.eqb k k1) eqn:E; [apply String.eqb_eq in E; left; symmetry; exact E | right; apply IH; exact L].
+Qed.
+
+Lemma lookup_in_iff s : NoDup (List.map fst s) -> forall k v, lookup k s = Some v <-> In (k, v) s.
+Proof.
+  induction s as [|[k0 v0] s IH]; intros N k v; simpl; [split; [discriminate|intros []]|].
+  inversion N as [|? ? N1 N2]; subst. destruct (String.eqb k k0) eqn:E.
+  - apply String.eqb_eq in E. subst k0. split.
+    + intro H. inversion H. left. reflexivity.
+    + intros [H|H]; [inversion H; reflexivity|]. exfalso. apply N1. apply in_map_iff. exists (k, v). split; [reflexivity|exact H].
+  - rewrite (IH N2). split; [intro H; right; exact H|]. intros [H|H]; [|exact H].
+    inversion H; subst. rewrite String.eqb_refl in E. discriminate.
+Qed.
+
+Lemma lookup_perm s s' : NoDup (List.map fst s) -> Permutation s s' -> forall k, lookup k s = lookup k s'.
+Proof.
+  intros N P k. assert (N' : NoDup (List.map fst s')) by (eapply Permutation_NoDup; [apply Permutation_map; exact P|exact N]).
+  destruct (lookup k s) eqn:L.
+  - apply (lookup_in_iff s N) in L. symmetry. apply (lookup_in_iff s' N'). perm_in P. exact L.
+  - destruct (lookup k s') eqn:L'; [|reflexivity].
+    apply (lookup_in_iff s' N') in L'. assert (In (k, s0) s) by (perm_in P; exact L').
+    apply (lookup_in_iff s N) in H. congruence.
+Qed.
+
+Lemma keys_dir_schedule s s' :
+  NoDup (List.map fst s) -> Permutation s s' -> keys_dir s = keys_dir s'.
+Proof.
+  intros N P. unfold keys_dir, keyring_writes. fold kw_step.
+  assert (N' : NoDup (List.map fst s')) by (eapply Permutation_NoDup; [apply Permutation_map; exact P|exact N]).
+  assert (K : ssort (List.map fst (fold_left kw_step s [])) = ssort (List.map fst (fold_left kw_step s' []))).
+  { apply ssort_perm_invariant. apply NoDup_Permutation; try (apply writes_keys_nodup; constructor).
+    intro x. rewrite !writes_keys_in. simpl. split; intros [H|[]]; left;
+      (eapply Permutation_in; [|exact H]); [apply Permutation_map; exact P | apply Permutation_sym, Permutation_map; exact P]. }
+  rewrite K. apply map_ext. intro k. f_equal.
+  rewrite (writes_lookup s N), (writes_lookup s' N'). simpl. rewrite (lookup_perm s s' N P k). reflexivity.
+Qed.
+
+(* what lands in the image is the configured content of each key *)
+Lemma keys_dir_content s : NoDup (List.map fst s) -> forall k d,
+  In (k, d) (keys_dir s) <-> (exists v, d = Some v /\ In (k, v) s).
+Proof.
+  intros N k d. unfold keys_dir, keyring_writes. fold kw_step. rewrite in_map_iff. split.
+  - intros [k' [E I]]. inversion E; subst. apply (proj1 (ssort_In _ _)) in I. apply (proj1 (writes_keys_in _ _ _)) in I. simpl in I.
+    destruct I as [I|[]]. rewrite (writes_lookup s N). simpl.
+    apply in_map_iff in I. destruct I as [[k1 v1] [E1 I1]]. simpl in E1. subst k1.
+    pose proof (proj2 (lookup_in_iff s N k v1) I1) as L. rewrite L. exists v1. split; [reflexivity|exact I1].
+  - intros [v [-> I]]. exists k. split.
+    + f_equal. rewrite (writes_lookup s N). simpl. rewrite (proj2 (lookup_in_iff s N k v) I). reflexivity.
+    + apply (proj2 (ssort_In _ _)). apply (proj2 (writes_keys_in _ _ _)). left. apply in_map_iff. exists (k, v). split; [reflexivity|exact I].
+Qed.
+
+(* two keyring entries with the same basename and different content: the
+   image depends on which goroutine writes last *)
+Lemma keys_dir_collision_refuted :
+  exists s s', Permutation s s' /\ keys_dir s <> keys_dir s'.
+Proof.
+  exists [("k.rsa.pub", "A"); ("k.rsa.pub", "B")], [("k.rsa.pub", "B"); ("k.rsa.pub", "A")].
+  split; [apply perm_swap|]. vm_compute. discriminate.
+Qed.
+
+(* ====================================================================== *)
+(* InstallPackages: every completion order, every interleaving              *)
+(* ====================================================================== *)
+Lemma skipn_nth_error {A} (l : list A) : forall n x, nth_error l n = Some x -> skipn n l = x :: skipn (S n) l.
+Proof.
+  induction l as [|y l IH]; intros [|n] x H; simpl in *; try discriminate.
+  - inversion H. reflexivity.
+  - apply IH. exact H.
+Qed.
+
+Section InstallProofs.
+  Variables (P E St : Type).
+  Variable expand : P -> option E.
+  Variable install : St -> nat -> P -> E -> option St.
+  Variable pkgs : list P.
+  Variable fs0 : St.
+
+  Notation stepI := (step P E St expand install pkgs).
+  Notation seqI := (seq_install P E St expand install).
+  Notation N := (List.length pkgs).
+
+  Definition Inv (s : ist St) : Prop :=
+    match i_state St s with
+    | Some fs => i_next St s <= N /\ seqI 0 pkgs fs0 = seqI (i_next St s) (skipn (i_next St s) pkgs) fs
+    | None => seqI 0 pkgs fs0 = None
+    end.
+
+  Lemma inv_init : Inv (init St fs0).
+  Proof. unfold Inv, init. simpl. split; [lia | reflexivity]. Qed.
+
+  Lemma step_inv s e : Inv s -> Inv (stepI s e).
+  Proof.
+    unfold Inv. destruct e as [i|]; simpl; [tauto|].
+    destruct (i_state St s) as [fs|] eqn:Es; [|rewrite Es; tauto].
+    intros [Hle Hseq]. destruct (nth_error pkgs (i_next St s)) as [p|] eqn:En; [|rewrite Es; split; assumption].
+    destruct (nat_mem (i_next St s) (i_done St s)); [|rewrite Es; split; assumption].
+    rewrite (skipn_nth_error pkgs _ _ En) in Hseq. simpl in Hseq.
+    destruct (expand p) as [e|]; simpl; [|exact Hseq].
+    destruct (install fs (i_next St s) p e) as [fs'|]; simpl; [|exact Hseq].
+    split; [|exact Hseq]. apply Nat.le_succ_l. apply nth_error_Some. congruence.
+  Qed.
+
+  Lemma run_inv sched : forall s, Inv s -> Inv (fold_left stepI sched s).
+  Proof. induction sched as [|e t IH]; intros s H; simpl; [exact H|]. apply IH. apply step_inv. exact H. Qed.
+
+  Lemma step_done_mono s e i : In i (i_done St s) -> In i (i_done St (stepI s e)).
+  Proof.
+    destruct e as [j|]; simpl; [right; assumption|].
+    destruct (i_state St s); [|tauto]. destruct (nth_error pkgs (i_next St s)); [|tauto].
+    destruct (nat_mem (i_next St s) (i_done St s)); [|tauto].
+    destruct (expand p); simpl; [|tauto]. destruct (install s0 (i_next St s) p e); simpl; tauto.
+  Qed.
+
+  Lemma run_done sched : forall s i, In i (i_done St s) \/ In i (dones sched) -> In i (i_done St (fold_left stepI sched s)).
+  Proof.
+    induction sched as [|e t IH]; intros s i H; simpl.
+    - destruct H as [H|[]]. exact H.
+    - apply IH. destruct H as [H|H]; [left; apply step_done_mono; exact H|].
+      destruct e as [j|]; simpl in H; [|right; exact H].
+      destruct H as [H|H]; [left; simpl; left; exact H | right; exact H].
+  Qed.
+
+  Definition AllDone (s : ist St) : Prop := forall i, i < N -> In i (i_done St s).
+
+  Lemma nat_mem_true x l : In x l -> nat_mem x l = true.
+  Proof. intro H. unfold nat_mem. apply existsb_exists. exists x. split; [exact H | apply Nat.eqb_refl]. Qed.
+
+  Lemma none_stays k : forall t, i_state St t = None -> i_state St (fold_left stepI (repeat Step k) t) = None.
+  Proof.
+    induction k as [|k IHk]; intros t Ht; simpl; [exact Ht|]. apply IHk. rewrite Ht. exact Ht.
+  Qed.
+
+  (* one turn of the installer when everything is expanded: it fails, is past the end, or advances *)
+  Lemma step_progress s : AllDone s ->
+    i_state St (stepI s Step) = None \/ N <= i_next St (stepI s Step) \/ i_next St (stepI s Step) = S (i_next St s).
+  Proof.
+    intro AD. simpl. destruct (i_state St s) as [fs|] eqn:Es; [|left; exact Es].
+    destruct (nth_error pkgs (i_next St s)) as [p|] eqn:En.
+    - assert (Hlt : i_next St s < N) by (apply nth_error_Some; congruence).
+      rewrite (nat_mem_true _ _ (AD _ Hlt)).
+      destruct (expand p) as [e|]; simpl; [|left; reflexivity].
+      destruct (install fs (i_next St s) p e); simpl; [right; right; reflexivity | left; reflexivity].
+    - right. left. apply nth_error_None in En. exact En.
+  Qed.
+
+  Lemma drain k : forall s, AllDone s ->
+    i_state St (fold_left stepI (repeat Step k) s) = None \/
+    N <= i_next St (fold_left stepI (repeat Step k) s) \/
+    i_next St s + k <= i_next St (fold_left stepI (repeat Step k) s).
+  Proof.
+    induction k as [|k IH]; intros s AD.
+    - right. right. simpl. lia.
+    - assert (AD' : AllDone (stepI s Step)) by (intros i Hi; apply step_done_mono; apply AD; exact Hi).
+      change (fold_left stepI (repeat Step (S k)) s) with (fold_left stepI (repeat Step k) (stepI s Step)).
+      destruct (step_progress s AD) as [H|[H|H]].
+      + left. apply none_stays. exact H.
+      + destruct (IH _ AD') as [G|[G|G]]; [left; exact G | right; left; exact G | right; left; lia].
+      + destruct (IH _ AD') as [G|[G|G]]; [left; exact G | right; left; exact G | right; right; lia].
+  Qed.
+
+  Theorem install_schedule_independent sched :
+    (forall i, i < N -> In i (dones sched)) ->
+    outcome P E St expand install pkgs fs0 sched = seqI 0 pkgs fs0.
+  Proof.
+    intro Hall. unfold outcome, finish, run.
+    set (s := fold_left stepI sched (init St fs0)).
+    assert (AD : AllDone s) by (intros i Hi; apply run_done; right; apply Hall; exact Hi).
+    assert (I : Inv (fold_left stepI (repeat Step N) s)) by (apply run_inv, run_inv, inv_init).
+    destruct (drain N s AD) as [G|G]; unfold Inv in I.
+    - rewrite G in I. rewrite G. symmetry. exact I.
+    - destruct (i_state St (fold_left stepI (repeat Step N) s)) as [fs|] eqn:Es; [|symmetry; exact I].
+      destruct I as [Hle Hseq].
+      assert (En : i_next St (fold_left stepI (repeat Step N) s) = N) by (destruct G; lia).
+      rewrite En, skipn_all in Hseq. simpl in Hseq. symmetry. exact Hseq.
+  Qed.
+
+  (* the natural reading: the completion order is any permutation of 0..N-1,
+     interleaved with any number of installer turns *)
+  Corollary install_schedule_perm sched :
+    Permutation (dones sched) (seq 0 N) ->
+    outcome P E St expand install pkgs fs0 sched = seqI 0 pkgs fs0.
+  Proof.
+    intro Pm. apply install_schedule_independent. intros i Hi.
+    eapply Permutation_in; [apply Permutation_sym; exact Pm|]. apply in_seq. lia.
+  Qed.
+
+  Corollary install_two_schedules sched sched' :
+    Permutation (dones sched) (seq 0 N) -> Permutation (dones sched') (seq 0 N) ->
+    outcome P E St expand install pkgs fs0 sched = outcome P E St expand install pkgs fs0 sched'.
+  Proof. intros H H'. rewrite (install_schedule_perm _ H), (install_schedule_perm _ H'). reflexivity. Qed.
+End InstallProofs.
+
+(* ====================================================================== *)
+(* install_if: the install order depends on map iteration (finding C01-F1)   *)
+(* ====================================================================== *)
+Definition ii_universe : list (string * list iipkg) :=
+  [("d1", [{| ii_name := "x1"; ii_if := ["d1"] |}]); ("d2", [{| ii_name := "x2"; ii_if := ["d2"] |}])].
+
+Lemma install_if_order_refuted :
+  exists m deps ord ord', NoDup ord /\ Permutation ord ord' /\ Permutation ord deps /\
+    install_if_pass m deps ord <> install_if_pass m deps ord'.
+Proof.
+  exists ii_universe, ["d1"; "d2"], ["d1"; "d2"], ["d2"; "d1"].
+  split; [repeat constructor; simpl; intuition discriminate|].
+  split; [apply perm_swap|]. split; [reflexivity|]. vm_compute. discriminate.
+Qed.
+
+(* partial: when at most one of the resolved dependencies triggers anything,
+   the iteration order does not matter *)
+Lemma ii_visit_nil m st d : ii_lookup m d = [] -> ii_visit m st d = st.
+Proof. intro H. unfold ii_visit. rewrite H. reflexivity. Qed.
+
+Lemma ii_fold_nil m l : forall st, (forall d, In d l -> ii_lookup m d = []) -> fold_left (ii_visit m) l st = st.
+Proof.
+  induction l as [|d l IH]; intros st H; simpl; [reflexivity|].
+  rewrite ii_visit_nil by (apply H; left; reflexivity). apply IH. intros d' Hd. apply H. right. exact Hd.
+Qed.
+
+Lemma install_if_single_trigger m deps ord k :
+  NoDup ord -> In k ord -> (forall d, In d ord -> d <> k -> ii_lookup m d = []) ->
+  install_if_pass m deps ord = install_if_pass m deps [k].
+Proof.
+  intros N I H. unfold install_if_pass. f_equal.
+  destruct (in_split _ _ I) as [l1 [l2 ->]].
+  apply NoDup_remove_2 in N.
+  rewrite fold_left_app. simpl.
+  rewrite (ii_fold_nil m l1) by (intros d Hd; apply H; [apply in_or_app; left; exact Hd | intro; subst; apply N; apply in_or_app; left; exact Hd]).
+  apply ii_fold_nil. intros d Hd. apply H; [apply in_or_app; right; right; exact Hd | intro; subst; apply N; apply in_or_app; right; exact Hd].
+Qed.
+
+Lemma install_if_partial m deps ord ord' k :
+  NoDup ord -> Permutation ord ord' -> In k ord ->
+  (forall d, In d ord -> d <> k -> ii_lookup m d = []) ->
+  install_if_pass m deps ord = install_if_pass m deps ord'.
+Proof.
+  intros N P I H. rewrite (install_if_single_trigger m deps ord k N I H).
+  symmetry. apply install_if_single_trigger.
+  - eapply Permutation_NoDup; eassumption.
+  - eapply Permutation_in; eassumption.
+  - intros d Hd. apply H. eapply Permutation_in; [apply Permutation_sym; exact P | exact Hd].
+Qed.
+
+(* no trigger at all: nothing is appended *)
+Lemma install_if_none m deps ord : (forall d, In d ord -> ii_lookup m d = []) -> install_if_pass m deps ord = deps.
+Proof. intro H. unfold install_if_pass. rewrite ii_fold_nil by exact H. reflexivity. Qed.
+
+(* ====================================================================== *)
+(* output tarball member order (finding C01-F2)                             *)
+(* ====================================================================== *)
+Lemma tarball_order_refuted :
+  exists imgs imgs' manifests, Permutation imgs imgs' /\ tar_members imgs manifests <> tar_members imgs' manifests.
+Proof.
+  exists [("cfgA", ["l1"; "l2"]); ("cfgB", ["l1"; "l3"])], [("cfgB", ["l1"; "l3"]); ("cfgA", ["l1"; "l2"])], ["mA"; "mB"].
+  split; [apply perm_swap|]. vm_compute. discriminate.
+Qed.
+
+(* a single image (one architecture): there is only one order *)
+Lemma tarball_order_single img imgs' manifests :
+  Permutation [img] imgs' -> tar_members [img] manifests = tar_members imgs' manifests.
+Proof. intro P. apply Permutation_length_1_inv in P. subst. reflexivity. Qed.
+
+(* whatever the order, the SET of members is the same when layers are distinct per image
+   (stated for the member multiset of the configs, which is what index and manifests refer to) *)
+Lemma perms_complete {A} (l : list A) : forall l', Permutation l l' -> In l' (perms l).
+Proof.
+  assert (Ins : forall (x : A) l1 l2, In (l1 ++ x :: l2) (inserts x (l1 ++ l2))).
+  { intros x l1. induction l1 as [|y l1 IH]; intro l2; simpl.
+    - destruct l2; simpl; left; reflexivity.
+    - right. apply in_map. apply IH. }
+  induction l as [|x l IH]; intros l' P.
+  - apply Permutation_nil in P. subst. left. reflexivity.
+  - assert (Ix : In x l') by (eapply Permutation_in; [exact P | left; reflexivity]).
+    destruct (in_split _ _ Ix) as [l1 [l2 ->]].
+    apply Permutation_cons_app_inv in P. simpl. apply in_flat_map. exists (l1 ++ l2). split; [apply IH; exact P | apply Ins].
+Qed.
